@@ -593,4 +593,256 @@ example : (EntRepository.Cancel { db := { tasks := [exTask .dispatched] }, clk :
 example : ((EntRepository.Cancel { db := { tasks := [exTask .scheduled] }, clk := fun _ => 5000001 } none "a").1.db.lookup "a").map
     (fun t => (t.state, t.cancelledAt)) = some (.cancelled, some 5000000) := by rfl
 
+/-! ### MarkAsDone's loop terminates (no livelock) -/
+
+/-- One lifecycle step, seen from one stored id: the row stays stored, and unless it was `scheduled` its state is
+unchanged or went `dispatched → done / err`. -/
+theorem lookup_lifecycle_step {db : Repo} {id : String} {t : Gk.Task} (h : db.lookup id = some t)
+    (now : Time) {op : Op} (hl : Ent.lifecycle op = true) :
+    ∃ t', (Repo.step {} db now op).1.lookup id = some t' ∧
+      (t.state ≠ .scheduled → t'.state = t.state ∨ (t.state = .dispatched ∧ (t'.state = .done ∨ t'.state = .err))) := by
+  have hid : t.id = id := repo_lookup_id h
+  have same : ∃ t', db.lookup id = some t' ∧
+      (t.state ≠ .scheduled → t'.state = t.state ∨ (t.state = .dispatched ∧ (t'.state = .done ∨ t'.state = .err))) :=
+    ⟨t, h, fun _ => .inl rfl⟩
+  -- a guarded UPDATE of the row `id'` whose guard is `state = scheduled`
+  have hms : ∀ id' (f : Gk.Task → Gk.Task), (∀ t, (f t).id = t.id) →
+      ∃ t', (db.mutateScheduled id' f).1.lookup id = some t' ∧
+        (t.state ≠ .scheduled → t'.state = t.state ∨ (t.state = .dispatched ∧ (t'.state = .done ∨ t'.state = .err))) := by
+    intro id' f hf
+    cases hg : Ent.guard db id' .scheduled
+    · rw [Ent.mutate_miss _ hg]; exact same
+    · rw [Ent.mutate_hit _ hg]
+      obtain ⟨t0, hl0, hs0⟩ := Ent.guard_eq_true.mp hg
+      simp only [Ent.lookup_replace_map db id' id f hf, h, Option.map_some]
+      refine ⟨_, rfl, fun hns => ?_⟩
+      by_cases hii : id = id'
+      · subst hii
+        rw [h] at hl0
+        cases hl0
+        exact absurd hs0 hns
+      · have : (t.id == id') = false := by rw [hid]; simpa using hii
+        simp only [this]
+        exact .inl rfl
+  cases op with
+  | add id' p =>
+    simp only [Repo.step]
+    split
+    · exact same
+    · refine ⟨t, ?_, fun _ => .inl rfl⟩
+      rw [Ent.lookup_append, h]; rfl
+  | get id' => rw [(step_reads_fst {} db now).1 id']; exact same
+  | find q o l => exact same
+  | next => rw [(step_reads_fst {} db now).2.2]; exact same
+  | update id' p =>
+    simp only [Repo.step]
+    split
+    · exact same
+    · exact hms id' _ (fun _ => rfl)
+  | cancel id' => exact hms id' _ (fun _ => rfl)
+  | dispatch id' => exact hms id' _ (fun _ => rfl)
+  | done id' e =>
+    cases hg : Ent.guard db id' .dispatched
+    · rw [Ent.done_miss now e hg]; exact same
+    · rw [Ent.done_hit now e hg]
+      obtain ⟨t0, hl0, hs0⟩ := Ent.guard_eq_true.mp hg
+      simp only [Ent.lookup_replace_map db id' id _ (Ent.setDone_id now e), h, Option.map_some]
+      refine ⟨_, rfl, fun _ => ?_⟩
+      by_cases hii : id = id'
+      · subst hii
+        rw [h] at hl0
+        cases hl0
+        have : (t.id == id) = true := by simp [hid]
+        simp only [this, if_true]
+        right
+        refine ⟨hs0, ?_⟩
+        cases e
+        · exact .inl rfl
+        · exact .inr rfl
+      · have : (t.id == id') = false := by rw [hid]; simpa using hii
+        simp only [this]
+        exact .inl rfl
+  | revert | cancelDispatched | deleteEnded => cases hl
+
+/-- what the other clients may do between two statements: any finite sequence of lifecycle operations -/
+def lifeRun (ops : List (Time × Op)) (db : Repo) : Repo :=
+  ops.foldl (fun r p => (Repo.step {} r p.1 p.2).1) db
+
+/-- The other clients only perform lifecycle operations of the repository (`Ent.lifecycle`: add / get / update / cancel /
+dispatch / done / find / next — everything the scheduler and the dispatcher call). `Ent.lifecycle` EXCLUDES the recovery
+operations `.revert` (dispatched → scheduled!), `.cancelDispatched` and `.deleteEnded`, and that is exactly right here:
+with `.revert` allowed a task can become `dispatched` again and again and `MarkAsDone` can be sent round its loop any
+number of times (`exRevertEnv` below). -/
+def LifecycleEnv (env : Nat → Repo → Repo) : Prop :=
+  ∀ n, ∃ ops : List (Time × Op), (∀ p ∈ ops, Ent.lifecycle p.2 = true) ∧ env n = lifeRun ops
+
+/-- The monotonicity fact behind termination, along a lifecycle run: a stored id stays stored; a task that is not
+`scheduled` keeps its state, except that a `dispatched` one may become `done` / `err`. In particular a task never
+becomes `dispatched` unless it was `scheduled` immediately before, and `done` / `err` / `cancelled` are final.
+(No `Repo.WF` and no "nobody adds this id" hypothesis: `Repo.lookup` is the FIRST row with the key and an insertion
+appends, so a row that is stored stays the row `lookup` finds.) -/
+theorem lookup_lifeRun (ops : List (Time × Op)) (hl : ∀ p ∈ ops, Ent.lifecycle p.2 = true) :
+    ∀ {db : Repo} {id : String} {t : Gk.Task}, db.lookup id = some t → t.state ≠ .scheduled →
+    ∃ t', (lifeRun ops db).lookup id = some t' ∧
+      (t'.state = t.state ∨ (t.state = .dispatched ∧ (t'.state = .done ∨ t'.state = .err))) := by
+  induction ops with
+  | nil => intro db id t h _; exact ⟨t, h, .inl rfl⟩
+  | cons p rest ih =>
+    intro db id t h hns
+    obtain ⟨t1, h1, hs1⟩ := lookup_lifecycle_step h p.1 (hl p List.mem_cons_self)
+    have hs1 := hs1 hns
+    have hns1 : t1.state ≠ .scheduled := by
+      rcases hs1 with e | ⟨_, e | e⟩
+      · rw [e]; exact hns
+      · rw [e]; decide
+      · rw [e]; decide
+    obtain ⟨t', h', hs'⟩ := ih (fun q hq => hl q (List.mem_cons_of_mem _ hq)) h1 hns1
+    refine ⟨t', by simpa only [lifeRun, List.foldl_cons] using h', ?_⟩
+    rcases hs1 with e1 | ⟨hd, e1⟩
+    · rw [e1] at hs'; exact hs'
+    · rcases hs' with e' | ⟨hd', _⟩
+      · right; exact ⟨hd, by rw [e']; exact e1⟩
+      · rcases e1 with e1 | e1 <;> rw [e1] at hd' <;> cases hd'
+
+/-- after a statement the next one sees what the other clients made of the table this one left -/
+theorem seen_after (r : GoEnt) (db : Repo) : (GoEnt.after r db).seen = r.env (r.nstmt + 1) db := by
+  simp [GoEnt.seen, GoEnt.after]
+
+/-- `continue` only when the read shows the task dispatched -/
+theorem classify_done_none {db : Repo} {id : String} {e : Option String}
+    (h : Ent.classify db (.done id e) = none) : ∃ t, db.lookup id = some t ∧ t.state = .dispatched := by
+  simp only [Ent.classify] at h
+  cases hl : db.lookup id with
+  | none => simp [hl] at h
+  | some t =>
+    refine ⟨t, rfl, ?_⟩
+    by_cases hs : t.state = .dispatched
+    · exact hs
+    · simp [hl, hs] at h
+
+/-- a read that shows a stored task in any other state decides the call -/
+theorem classify_done_some {db : Repo} {id : String} {e : Option String} {t : Gk.Task}
+    (hl : db.lookup id = some t) (hs : t.state ≠ .dispatched) : ∃ out, Ent.classify db (.done id e) = some out := by
+  have hs' : (t.state == St.dispatched) = false := by simpa using hs
+  refine ⟨Ent.refusal errKindMarkAsDone (some t), ?_⟩
+  simp only [Ent.classify, hl, hs', Bool.false_eq_true, if_false]
+
+/-- a round that finds the task `dispatched`, `done` or `err` is the last one -/
+theorem doneRounds_last (n : Nat) (r : GoEnt) (id : String) (e : Option String) (henv : LifecycleEnv r.env)
+    (hlive : ∃ t, r.seen.lookup id = some t ∧ (t.state = .dispatched ∨ t.state = .done ∨ t.state = .err)) :
+    ∃ res, doneRounds (n + 1) r id e = some res := by
+  obtain ⟨t, hl, hs⟩ := hlive
+  simp only [doneRounds, Ent.stmt]
+  cases hg : Ent.guard r.seen id .dispatched
+  · simp only [Bool.false_eq_true, if_false]
+    have hnd : t.state ≠ .dispatched := Ent.guard_eq_false.mp hg t hl
+    have hns : t.state ≠ .scheduled := by
+      rcases hs with h | h | h <;> rw [h] <;> decide
+    obtain ⟨ops, hops, henv1⟩ := henv (r.nstmt + 1)
+    obtain ⟨t', hl', hs'⟩ := lookup_lifeRun ops hops hl hns
+    have hnd' : t'.state ≠ .dispatched := by
+      rcases hs' with h | ⟨hd, _⟩
+      · rw [h]; exact hnd
+      · exact absurd hd hnd
+    rw [seen_after, henv1]
+    obtain ⟨out, hout⟩ := classify_done_some (e := e) hl' hnd'
+    simp only [hout]
+    exact ⟨_, rfl⟩
+  · simp only [if_true]
+    exact ⟨_, rfl⟩
+
+/-- more fuel does not change a result -/
+theorem doneRounds_mono (n : Nat) : ∀ (r : GoEnt) (id : String) (e : Option String) (res : GoEnt × GoError),
+    doneRounds n r id e = some res → doneRounds (n + 1) r id e = some res := by
+  induction n with
+  | zero => intro r id e res h; cases h
+  | succ n ih =>
+    intro r id e res h
+    rw [doneRounds] at h ⊢
+    cases hst : Ent.stmt r.seen r.now (.done id e) with
+    | fin db' out => simpa only [hst] using h
+    | miss =>
+      simp only [hst] at h ⊢
+      cases hc : Ent.classify (GoEnt.after r r.seen).seen (.done id e) with
+      | some out => simpa only [hc] using h
+      | none =>
+        simp only [hc] at h ⊢
+        exact ih _ _ _ _ h
+
+theorem doneRounds_mono_le {n m : Nat} (hnm : n ≤ m) {r : GoEnt} {id : String} {e : Option String}
+    {res : GoEnt × GoError} (h : doneRounds n r id e = some res) : doneRounds m r id e = some res := by
+  induction hnm with
+  | refl => exact h
+  | step _ ih => exact doneRounds_mono _ _ _ _ _ ih
+
+/-- **`MarkAsDone`'s retry loop (introduced for D19) cannot livelock: two rounds always suffice** when the other clients
+only perform lifecycle operations. Round 1: the guard `state = dispatched` holds ⇒ hit. Otherwise a miss, and the
+later read shows an unknown id or a state other than `dispatched` ⇒ classified, return; or it shows `dispatched` ⇒
+round 2, whose UPDATE finds the task still `dispatched` ⇒ hit, or `done` / `err` ⇒ miss, and then the classifying
+read still finds `done` / `err` ⇒ return.
+The ONLY hypothesis is `LifecycleEnv`: neither `r.nstmt = 0`, nor `r.db.WF`, nor freshness of `id` (nobody adds a task
+with this id meanwhile) is needed — an id that is unknown at the read returns `id_not_found` at once, and an id that is
+stored can not be shadowed by a later insertion (`lookup_lifeRun`). -/
+theorem doneRounds_terminates (r : GoEnt) (id : String) (e : Option String) (henv : LifecycleEnv r.env) :
+    ∃ res, doneRounds 2 r id e = some res := by
+  rw [doneRounds]
+  cases hst : Ent.stmt r.seen r.now (.done id e) with
+  | fin db' out => exact ⟨_, rfl⟩
+  | miss =>
+    simp only []
+    cases hc : Ent.classify (GoEnt.after r r.seen).seen (.done id e) with
+    | some out => exact ⟨_, rfl⟩
+    | none =>
+      simp only []
+      obtain ⟨t1, hl1, hs1⟩ := classify_done_none hc
+      have henv2 : LifecycleEnv (GoEnt.after (GoEnt.after r r.seen) (GoEnt.after r r.seen).seen).env := henv
+      refine doneRounds_last 0 _ id e henv2 ?_
+      obtain ⟨ops, hops, he⟩ := henv2 ((GoEnt.after r r.seen).nstmt + 1)
+      rw [seen_after]
+      have he' : (GoEnt.after r r.seen).env ((GoEnt.after r r.seen).nstmt + 1) = lifeRun ops := he
+      rw [he']
+      obtain ⟨t2, hl2, hs2⟩ := lookup_lifeRun ops hops hl1 (by rw [hs1]; decide)
+      refine ⟨t2, hl2, ?_⟩
+      rcases hs2 with h | ⟨_, h | h⟩
+      · left; rw [h]; exact hs1
+      · right; left; exact h
+      · right; right; exact h
+
+/-- the generated `MarkAsDone` returns (`some _`: the `for { … }` loop is left) with any fuel ≥ 2 -/
+theorem tie_ent_MarkAsDone_terminates (fuel : Nat) (hf : 2 ≤ fuel) (r : GoEnt) (id : String) (err : GoError)
+    (henv : LifecycleEnv r.env) :
+    ∃ res, EntRepository.MarkAsDone fuel r none id err = some res := by
+  obtain ⟨res, h⟩ := doneRounds_terminates r id (doneMsg err) henv
+  exact ⟨res, by rw [tie_ent_MarkAsDone]; exact doneRounds_mono_le hf h⟩
+
+/-! ### non-vacuity: a call that really goes round the loop -/
+
+/-- another client dispatches the task "a" between this call's first UPDATE and its classifying read -/
+def exDispatchEnv : Nat → Repo → Repo := fun n => if n = 1 then lifeRun [(3000000, .dispatch "a")] else lifeRun []
+
+example : LifecycleEnv exDispatchEnv := by
+  intro n
+  by_cases h : n = 1
+  · exact ⟨[(3000000, .dispatch "a")], by simp [Ent.lifecycle], by simp [exDispatchEnv, h]⟩
+  · exact ⟨[], by simp, by simp [exDispatchEnv, h]⟩
+
+/-- the task is `scheduled` when `MarkAsDone` starts: the UPDATE misses; the dispatcher's `MarkAsDispatched` lands; the
+classifying read shows `dispatched` ⇒ `continue`; the second round's UPDATE hits: nil error, the task ends `done` — and
+one round is not enough. -/
+example :
+    (EntRepository.MarkAsDone 2 { db := { tasks := [exTask .scheduled] }, clk := fun _ => 5000000, env := exDispatchEnv }
+        none "a" none).map (fun p => (p.2, (p.1.db.lookup "a").map (fun t => (t.state, t.doneAt)), p.1.nstmt)) =
+      some (none, some (.done, some 5000000), 3) ∧
+    (EntRepository.MarkAsDone 1 { db := { tasks := [exTask .scheduled] }, clk := fun _ => 5000000, env := exDispatchEnv }
+        none "a" none).isNone = true := by
+  exact ⟨rfl, rfl⟩
+
+/-- why `LifecycleEnv` must exclude the recovery operation `.revert` (dispatched → scheduled): an environment that
+dispatches before every read and reverts before every UPDATE keeps the loop going for as long as it likes. -/
+def exRevertEnv : Nat → Repo → Repo := fun n =>
+  if n % 2 = 1 then lifeRun [(3000000, .dispatch "a")] else fun db => (Repo.step {} db 4000000 .revert).1
+
+example : (EntRepository.MarkAsDone 6 { db := { tasks := [exTask .scheduled] }, clk := fun _ => 5000000, env := exRevertEnv }
+    none "a" none).isNone = true := by rfl
+
 end Gk.Tie
